@@ -114,6 +114,26 @@ def gen(rng, idx, tier):
                 for k in classes:
                     if rng.random() < 0.6:
                         g["anchors"].append({"name": k, "x": coord(rng), "y": coord(rng)})
+    if "Deva" in scripts and rng.random() < 0.4:
+        # a second Indic script next to Devanagari (whether it is declared by a languagesystem
+        # statement is decided below, per script): Bengali letters and one Bengali mark
+        for n_, cp in (("ka-beng", 0x995), ("kha-beng", 0x996)):
+            g = S._spec(rng, n_, [cp])
+            for k in classes:
+                if rng.random() < 0.7:
+                    g["anchors"].append({"name": k, "x": coord(rng), "y": coord(rng)})
+            glyphs.append(g)
+            desc[n_] = S.describe(n_, [cp], "letter")
+            role[n_] = "base"
+        g = S._spec(rng, "candrabindu-beng", [0x981], mark=True)
+        for k in rng.sample(classes, min(len(classes), rng.choice([1, 2]))):
+            g["anchors"].append({"name": "_" + k, "x": coord(rng), "y": coord(rng)})
+        glyphs.append(g)
+        desc["candrabindu-beng"] = S.describe("candrabindu-beng", [0x981], "mark")
+        role["candrabindu-beng"] = "mark"
+        second_indic = True
+    else:
+        second_indic = False
     if rng.random() < 0.12:
         # a long ligature (>= 10 components): two-digit component numbers in the anchor names
         ncomp = rng.choice([10, 11, 12, 21])
@@ -147,9 +167,10 @@ def gen(rng, idx, tier):
                                     and a["name"][1:] not in plain)]
     # mark-to-mark across the Indic / non-Indic partition is a listed finding: keep the default
     # stratum clear of it (marks of both kinds present -> no plain anchors on marks)
-    indic_marks = {n for n, _cp in S.MARKS["Deva"]}
+    indic_marks = {n for n, _cp in S.MARKS["Deva"]} | {"candrabindu-beng"}
     mk = [g for g in glyphs if role.get(g["name"]) == "mark" or desc[g["name"]]["mark"]]
-    kinds = {(g["name"].split(".")[0] in indic_marks) for g in mk}
+    kinds = {("beng" if g["name"] == "candrabindu-beng" else
+              g["name"].split(".")[0] in indic_marks) for g in mk}
     if len(kinds) > 1 and stratum == "default":
         if rng.random() < 0.15:
             stratum = "mkmk_cross_partition"
@@ -424,9 +445,14 @@ def classify(v, case):
         # mark-to-mark lookups carry a mark filtering set that only holds the marks of the
         # lookup's own partition (Indic glyphs -> abvm/blwm, all others -> mkmk): a mark of the
         # other partition is skipped, so it never attaches to a mark across the partition
-        indic = {n for n, _cp in S.MARKS["Deva"]}
+        # (which Indic scripts count depends on the languagesystem statements, so marks of two
+        # different Indic scripts can be on different sides as well)
+        deva = {n for n, _cp in S.MARKS["Deva"]}
+
+        def side(n):
+            return "deva" if n in deva else "beng" if n == "candrabindu-beng" else "other"
         b, m = det["base"].split(".")[0], det["mark"].split(".")[0]
         names = {g["name"] for g in case["ufo"]["glyphs"]}
-        if (b in indic) != (m in indic) and any(n.split(".")[0] in indic for n in names):
+        if side(b) != side(m) and any(side(n.split(".")[0]) != "other" for n in names):
             return "mkmk_across_indic_partition_hidden_by_filtering_set"
     return None
